@@ -202,9 +202,11 @@ def emit(pkg, model_dir, fmt, file_stems=None):
         val = [[[pkg['flux'][m][a][i] * cfac for i in idx] for a in aidx] for m in range(n)]
         unc = [[[pkg['err'][m][a][i] * ufac for i in idx] for a in aidx] for m in range(n)]
         import numpy as np
-        pkgio.write_cube(os.path.join(model_dir, 'flux.fits'), names, swav, stored_aps, val, unc,
+        apu = pkg.get('cube_ap_unit', 'AU')     # (only set by checks that compare in AU)
+        cube_aps = None if stored_aps is None else [a * gen.AP_UNIT_FACTOR[apu] for a in stored_aps]
+        pkgio.write_cube(os.path.join(model_dir, 'flux.fits'), names, swav, cube_aps, val, unc,
                          dtype=np.float64 if pkg['cube_dtype'] == 'f8' else np.float32,
-                         val_unit=pkg.get('cube_unit', 'mJy'), unc_unit=uunit)
+                         val_unit=pkg.get('cube_unit', 'mJy'), unc_unit=uunit, ap_unit=apu)
         pkgio.write_parameters(model_dir, names, pkg['params'], gz=bool(pkg.get('par_gz')))   # cube format: same order as the cube
 
 
